@@ -190,44 +190,50 @@ def discardHot (s : TState D) (id : Nat) : TState D :=
 inductive Tier | cache | hot | cold
 deriving DecidableEq, Repr
 
-/-- `TieredEngine::query_with_source` (circuit breakers closed).  `admit` is the value
-    `should_cache` returns if it is consulted. -/
-def query (s : TState D) (id : Nat) (admit : Bool) : TState D × Option (Vec × Tier) :=
-  -- Layer 1
+/-- `cache_strategy.insert_cached` after a positive admission decision -/
+def admitTo (s : TState D) (adm : Bool) (id : Nat) (v : Vec) (t : Token D) : TState D :=
+  if adm then { s with l1a := s.l1a.insert id ⟨v, t⟩ } else s
+
+/-- Layer 1 of `query_with_source`: L1a `get_cached` + canonical check (a stale entry is
+    invalidated). -/
+def queryL1 (s : TState D) (id : Nat) : TState D × Option Vec :=
   let (l1, hit) := s.l1a.get id
   let s1 : TState D := { s with l1a := l1 }
-  let afterCache : Option (TState D) :=       -- `none` = served from cache
-    match hit with
-    | some c =>
-      match canonicalState digest s1.cold id c.vec c.tok with
-      | .matched => none
-      | _ => some { s1 with l1a := s1.l1a.invalidate id }
-    | none => some s1
-  match afterCache, hit with
-  | none, some c => (s1, some (c.vec, .cache))
-  | none, none => (s1, none)    -- unreachable
-  | some s2, _ =>
-    -- Layer 2
-    let hotHit := alookup id s2.hot
-    let afterHot : TState D × Option Vec :=
-      match hotHit with
-      | some h =>
-        match canonicalState digest s2.cold id h.vec h.tok with
-        | .matched =>
-          let s3 := if admit then { s2 with l1a := s2.l1a.insert id ⟨h.vec, h.tok⟩ } else s2
-          (s3, some h.vec)
-        | .tokenMismatch | .localCorruption => (discardHot s2 id, none)
-        | .missing => (s2, none)
-      | none => (s2, none)
-    match afterHot with
-    | (s3, some v) => (s3, some (v, .hot))
-    | (s3, none) =>
-      -- Layer 3
-      match alookup id s3.cold with
-      | some d =>
-        let s4 := if admit then { s3 with l1a := s3.l1a.insert id ⟨d.vec, coldToken digest d⟩ } else s3
-        (s4, some (d.vec, .cold))
-      | none => (s3, none)
+  match hit with
+  | some c =>
+    match canonicalState digest s1.cold id c.vec c.tok with
+    | .matched => (s1, some c.vec)
+    | _ => ({ s1 with l1a := s1.l1a.invalidate id }, none)
+  | none => (s1, none)
+
+/-- Layer 2: hot tier `get_with_coherence` + canonical check + L1a admission. -/
+def queryL2 (s : TState D) (id : Nat) (adm : Bool) : TState D × Option Vec :=
+  match alookup id s.hot with
+  | some h =>
+    match canonicalState digest s.cold id h.vec h.tok with
+    | .matched => (admitTo s adm id h.vec h.tok, some h.vec)
+    | .tokenMismatch | .localCorruption => (discardHot s id, none)
+    | .missing => (s, none)
+  | none => (s, none)
+
+/-- Layer 3: canonical fetch + L1a admission. -/
+def queryL3 (s : TState D) (id : Nat) (adm : Bool) : TState D × Option Vec :=
+  match alookup id s.cold with
+  | some d => (admitTo s adm id d.vec (coldToken digest d), some d.vec)
+  | none => (s, none)
+
+/-- `TieredEngine::query_with_source` (circuit breakers closed).  `adm` is the value
+    `should_cache` returns if it is consulted. -/
+def query (s : TState D) (id : Nat) (adm : Bool) : TState D × Option (Vec × Tier) :=
+  match queryL1 digest s id with
+  | (s1, some v) => (s1, some (v, .cache))
+  | (s1, none) =>
+    match queryL2 digest s1 id adm with
+    | (s2, some v) => (s2, some (v, .hot))
+    | (s2, none) =>
+      match queryL3 digest s2 id adm with
+      | (s3, some v) => (s3, some (v, .cold))
+      | (s3, none) => (s3, none)
 
 /-- hot-tier leg shared by `get_document_with_metadata` / `get_embedding_cache_aware` -/
 def hotLeg (s : TState D) (id : Nat) : TState D × Option Vec :=
@@ -251,15 +257,17 @@ def docWithMeta (s : TState D) (id : Nat) : TState D × Option (Vec × Meta) :=
       | none => (s1, none)
   | none => (s, none)
 
+/-- cache leg of `get_embedding_cache_aware` (`peek_cached`: no LRU promotion) -/
+def peekLeg (s : TState D) (id : Nat) : TState D × Option Vec :=
+  match s.l1a.peek id with
+  | some c =>
+    if canonicalState digest s.cold id c.vec c.tok = .matched then (s, some c.vec)
+    else ({ s with l1a := s.l1a.invalidate id }, none)
+  | none => (s, none)
+
 /-- `get_embedding_cache_aware` -/
 def embAware (s : TState D) (id : Nat) : TState D × Option Vec :=
-  let afterCache : TState D × Option Vec :=
-    match s.l1a.peek id with
-    | some c =>
-      if canonicalState digest s.cold id c.vec c.tok = .matched then (s, some c.vec)
-      else ({ s with l1a := s.l1a.invalidate id }, none)
-    | none => (s, none)
-  match afterCache with
+  match peekLeg digest s id with
   | (s1, some v) => (s1, some v)
   | (s1, none) =>
     match hotLeg digest s1 id with
@@ -323,17 +331,18 @@ def reconcile (s : TState D) (docs : List (Nat × HotDoc D)) :
           (st, failed ++ [(id, h)], ok, clr))
     (s, [], 0, false)
 
+/-- drain of a non-empty mirror: reconcile, re-insert failures, `Err` when nothing succeeded -/
+def drainNonEmpty (s : TState D) : TState D × Option Nat :=
+  match reconcile digest { s with hot := [] } s.hot with
+  | (s1, failed, ok, clr) =>
+    if failed.length ≠ 0 ∧ ok = 0 then ({ s1 with hot := failed }, none)
+    else if clr then ({ s1 with hot := failed, qcClears := s1.qcClears + 1 }, some ok)
+    else ({ s1 with hot := failed }, some ok)
+
 /-- `flush_hot_tier(force)` / `emergency_flush_hot_tier` after the `needs_flush` test.
     Result: `none` = the drain failed completely (`Err`), `some n` = `Ok(n)`. -/
 def drain (s : TState D) : TState D × Option Nat :=
-  let docs := s.hot
-  if docs.length = 0 then (s, some 0) else
-  let (s1, failed, ok, clr) := reconcile digest { s with hot := [] } docs
-  let s2 : TState D := { s1 with hot := failed }
-  if failed.length ≠ 0 ∧ ok = 0 then (s2, none)
-  else
-    let s3 := if clr then { s2 with qcClears := s2.qcClears + 1 } else s2
-    (s3, some ok)
+  if s.hot.length = 0 then (s, some 0) else drainNonEmpty digest s
 
 def flush (s : TState D) (force : Bool) : TState D × Option Nat :=
   if !force && !(s.hot.length ≥ s.cfg.soft) then (s, some 0) else drain digest s
@@ -341,77 +350,84 @@ def flush (s : TState D) (force : Bool) : TState D × Option Nat :=
 inductive WriteOut | ok | rejected | drainFailed
 deriving DecidableEq, Repr
 
+/-- `TieredEngine::insert` after the hard-limit handling: L1a invalidation, normalisation /
+    cold insert (refused when `accept = false`), mirror with the canonical token. -/
+def insertCore (s : TState D) (id : Nat) (stored : Vec) (m : Meta) (accept : Bool) :
+    TState D × WriteOut :=
+  if !accept then ({ s with l1a := s.l1a.invalidate id }, .rejected)
+  else
+    match alookup id (s.cold.insert id stored m) with
+    | some d =>
+      ({ s with l1a := s.l1a.invalidate id, cold := s.cold.insert id stored m,
+                hot := aset id ⟨stored, m, coldToken digest d⟩ s.hot }, .ok)
+    | none => ({ s with l1a := s.l1a.invalidate id, cold := s.cold.insert id stored m }, .rejected)
+
 /-- `TieredEngine::insert`.  `stored` = the vector after the engine's normalisation (oracle
     input, bits observed on the implementation); `accept = false` when normalisation or the
-    cold tier refuses the input. -/
+    cold tier refuses the input.  At the hard limit an emergency drain runs first; if it fails
+    completely the insert is refused. -/
 def insert (s : TState D) (id : Nat) (stored : Vec) (m : Meta) (accept : Bool) :
     TState D × WriteOut :=
-  let afterLimit : TState D × Bool :=
-    if s.hot.length ≥ s.cfg.hard then
-      match drain digest s with
-      | (s1, some _) => (s1, true)
-      | (s1, none) => (s1, false)
-    else (s, true)
-  match afterLimit with
-  | (s1, false) => (s1, .drainFailed)
-  | (s1, true) =>
-    let s2 : TState D := { s1 with l1a := s1.l1a.invalidate id }
-    if !accept then (s2, .rejected) else
-    let cold' := s2.cold.insert id stored m
-    match alookup id cold' with
-    | some d =>
-      ({ s2 with cold := cold', hot := aset id ⟨stored, m, coldToken digest d⟩ s2.hot }, .ok)
-    | none => ({ s2 with cold := cold' }, .rejected)   -- unreachable
+  if s.hot.length ≥ s.cfg.hard then
+    match drain digest s with
+    | (s1, some _) => insertCore digest s1 id stored m accept
+    | (s1, none) => (s1, .drainFailed)
+  else insertCore digest s id stored m accept
 
 /-- `TieredEngine::delete` -/
 def delete (s : TState D) (id : Nat) : TState D × Bool :=
-  let (cold', cd) := s.cold.delete id
-  let hd := (alookup id s.hot).isSome
-  let s1 : TState D := { s with cold := cold', hot := aerase id s.hot }
-  if !cd && !hd then (s1, false)
-  else ({ s1 with l1a := s1.l1a.invalidate id }, true)
+  if !(s.cold.delete id).2 && !(alookup id s.hot).isSome then
+    ({ s with cold := (s.cold.delete id).1, hot := aerase id s.hot }, false)
+  else
+    ({ s with cold := (s.cold.delete id).1, hot := aerase id s.hot,
+              l1a := s.l1a.invalidate id }, true)
 
 def dedupSorted (ids : List Nat) : List Nat :=
   (ids.mergeSort (· ≤ ·)).eraseDups
 
+def presentCount (s : TState D) (u : List Nat) : Nat :=
+  (u.filter fun id => (alookup id s.hot).isSome || (alookup id s.cold).isSome).length
+
 /-- `TieredEngine::batch_delete`: returns the pre-counted number of ids present in either tier. -/
 def batchDelete (s : TState D) (ids : List Nat) : TState D × Nat :=
-  let u := dedupSorted ids
-  let n := (u.filter fun id => (alookup id s.hot).isSome || (alookup id s.cold).isSome).length
-  if n = 0 then (s, 0) else
-  let cold' := u.foldl (fun c id => (Cold.delete c id).1) s.cold
-  let hot' := u.foldl (fun h id => aerase id h) s.hot
-  let l1' := u.foldl (fun l id => l.invalidate id) s.l1a
-  ({ s with cold := cold', hot := hot', l1a := l1' }, n)
+  if presentCount s (dedupSorted ids) = 0 then (s, 0) else
+  ({ s with cold := (dedupSorted ids).foldl (fun c id => (Cold.delete c id).1) s.cold,
+            hot := (dedupSorted ids).foldl (fun h id => aerase id h) s.hot,
+            l1a := (dedupSorted ids).foldl (fun l id => l.invalidate id) s.l1a },
+   presentCount s (dedupSorted ids))
+
+def hotUpdateMeta (h : Hot D) (id : Nat) (m : Meta) (merge : Bool) : Hot D :=
+  match alookup id h with
+  | some d => aset id { d with md := if merge then Meta.merge d.md m else m } h
+  | none => h
 
 /-- `TieredEngine::update_metadata` -/
 def updateMeta (s : TState D) (id : Nat) (m : Meta) (merge : Bool) : TState D × Bool :=
-  let (cold', ex) := s.cold.updateMeta id m merge
-  if !ex then (s, false) else
-  let hot' := match alookup id s.hot with
-    | some h => aset id { h with md := if merge then Meta.merge h.md m else m } s.hot
-    | none => s.hot
-  ({ s with cold := cold', hot := hot', qcClears := s.qcClears + 1 }, true)
+  if !(s.cold.updateMeta id m merge).2 then (s, false) else
+  ({ s with cold := (s.cold.updateMeta id m merge).1, hot := hotUpdateMeta s.hot id m merge,
+            qcClears := s.qcClears + 1 }, true)
+
+def bulkLoadCold (c : Cold) (docs : List (Nat × Vec × Meta × Bool)) : Cold × Nat :=
+  docs.foldl
+    (fun (acc : Cold × Nat) p =>
+      if p.2.2.2 then (acc.1.insert p.1 p.2.1 p.2.2.1, acc.2 + 1) else acc) (c, 0)
 
 /-- `bulk_load_cold_tier`: cold only; the hot mirror is NOT refreshed; L1a invalidated for every
     id of the request (accepted or not). -/
 def bulkLoad (s : TState D) (docs : List (Nat × Vec × Meta × Bool)) : TState D × Nat :=
-  let (cold', loaded) := docs.foldl
-    (fun (acc : Cold × Nat) p =>
-      let (id, v, m, accept) := p
-      if accept then (acc.1.insert id v m, acc.2 + 1) else acc) (s.cold, 0)
-  let l1' := docs.foldl (fun l p => l.invalidate p.1) s.l1a
-  ({ s with cold := cold', l1a := l1', qcClears := s.qcClears + 1 }, loaded)
+  ({ s with cold := (bulkLoadCold s.cold docs).1,
+            l1a := docs.foldl (fun l p => l.invalidate p.1) s.l1a,
+            qcClears := s.qcClears + 1 }, (bulkLoadCold s.cold docs).2)
+
+def staleHot (s : TState D) : List Nat :=
+  (s.hot.filter fun p => canonicalState digest s.cold p.1 p.2.vec p.2.tok ≠ .matched).map (·.1)
 
 /-- background `audit_hot_tier_coherence` -/
 def audit (s : TState D) : TState D × Nat :=
-  let stale := s.hot.filter fun p =>
-    canonicalState digest s.cold p.1 p.2.vec p.2.tok ≠ .matched
-  if stale.length = 0 then (s, 0) else
-  let ids := stale.map (·.1)
-  let hot' := ids.foldl (fun h id => aerase id h) s.hot
-  let l1' := ids.foldl (fun l id => l.invalidate id) s.l1a
-  ({ s with hot := hot', l1a := l1', qcClears := s.qcClears + 1 }, stale.length)
+  if (staleHot digest s).length = 0 then (s, 0) else
+  ({ s with hot := (staleHot digest s).foldl (fun h id => aerase id h) s.hot,
+            l1a := (staleHot digest s).foldl (fun l id => l.invalidate id) s.l1a,
+            qcClears := s.qcClears + 1 }, (staleHot digest s).length)
 
 /-! ### Adversarial pokes (harness plants entries through the public cache / hot-tier APIs) -/
 
